@@ -9,6 +9,7 @@
           and SFC_GET_MAX_ALL_CHANNELS (1045) with a zeroed buffer of the right size on handles that can read.
 -/
 import SfModel.Peak
+import SfModel.PeakExact
 import Driver.Util
 import Driver.Script
 open Sf
@@ -41,7 +42,7 @@ def peakLine (line : String) : String :=
       | none => "bad-job"
       | some ps =>
         let shown := ps.map fun p => s!"{hexFixed 16 p.value}:{p.position}"
-        s!"peaks={",".intercalate shown} chunk={hexBytes (Peak.chunkBytes k ch ps)}"
+        s!"peaks={",".intercalate shown} chunk={hexBytes (PeakExact.chunkBytes k ch ps)}"
     | _, _ => "bad-job"
   | _ => "bad-job"
 
